@@ -338,6 +338,11 @@ def deliverTx (ord : List Group → List Group) (vals : List Validator) (s : BSt
     | .ok r => r
     | .error f => (s, [.failed f])
 
+/-- ethbridge `InitGenesis` for a genesis that lists peggy tokens (in whatever order they arrived on the exporting
+    chain): every entry goes through `AddPeggyToken`; the pause flag of a genesis without one is `false` -/
+def initGenesisPeggy (s : BState) (l : List String) : BState :=
+  { s with peggy := l.foldl addPeggy s.peggy, paused := false }
+
 /-! ### histories -/
 
 /-- one step of a history: the staking module changes the validator set (environment), or a message is delivered -/
